@@ -149,10 +149,62 @@ def build_harness(race=False):
     return r.returncode == 0, r.stdout, binp
 
 
-def run_driver_bin(drv, cases_path, out_path):
-    with open(cases_path) as fin, open(out_path, "w") as fout:
-        r = subprocess.run([drv], stdin=fin, stdout=fout, stderr=subprocess.PIPE, text=True)
-    return r.returncode, r.stderr
+def run_driver_bin(drv, cases_path, out_path, jobs=None):
+    """Pipe the cases through the compiled Lean driver. Cases are independent of one another, so a large
+    file is cut into consecutive chunks judged by several driver processes; the case numbers the driver
+    prints (line numbers within its chunk) are shifted back to line numbers of the whole file."""
+    jobs = jobs or min(16, os.cpu_count() or 1)
+    size = os.path.getsize(cases_path)
+    if jobs <= 1 or size < 8 << 20:
+        with open(cases_path) as fin, open(out_path, "w") as fout:
+            r = subprocess.run([drv], stdin=fin, stdout=fout, stderr=subprocess.PIPE, text=True)
+        return r.returncode, r.stderr
+    # cut at line boundaries, by size
+    target = size // jobs + 1
+    chunks, offsets = [], []
+    base = os.path.splitext(cases_path)[0]
+    with open(cases_path, "rb") as f:
+        idx, k, cur, cur_size, first = 0, 0, None, 0, 0
+        for line in f:
+            if cur is None:
+                name = f"{base}.chunk{k}"
+                cur = open(name, "wb")
+                chunks.append(name)
+                offsets.append(idx)
+            cur.write(line)
+            cur_size += len(line)
+            idx += 1
+            if cur_size >= target:
+                cur.close()
+                cur, cur_size, k = None, 0, k + 1
+        if cur is not None:
+            cur.close()
+    procs = []
+    for name in chunks:
+        fin = open(name)
+        fout = open(name + ".out", "w")
+        procs.append((subprocess.Popen([drv], stdin=fin, stdout=fout, stderr=subprocess.PIPE, text=True), fin, fout))
+    rc, errs = 0, []
+    for p, fin, fout in procs:
+        _, err = p.communicate()
+        fin.close()
+        fout.close()
+        if p.returncode != 0:
+            rc = p.returncode
+            errs.append(err or "")
+    with open(out_path, "w") as out:
+        for name, off in zip(chunks, offsets):
+            with open(name + ".out") as f:
+                for line in f:
+                    parts = line.split("\t", 2)
+                    if off and len(parts) > 1 and parts[1].strip().isdigit():
+                        nl = "" if len(parts) > 2 else "\n"
+                        parts[1] = str(int(parts[1]) + off) + nl
+                        line = "\t".join(parts)
+                    out.write(line)
+            os.remove(name)
+            os.remove(name + ".out")
+    return rc, "\n".join(errs)
 
 
 def read_known_findings():
